@@ -244,8 +244,48 @@ def rule_suffix(ctx, m, rule='C04-R4', only=None, name_filter=None):
     ctx.floor(rule, n, 12, 'first/second-marked statements')
 
 
+def rule_passthrough(ctx, m):
+    """R5/R6: nothing drops or re-orders pieces before the share computation."""
+    hz = m.func('Gridder._trajectory_intersection_points_and_cells_horizontal')
+    for ax, coord in (('lat', 'lats'), ('lon', 'lons')):
+        d = single_def_value(hz.node, f'{ax}_change_signs')
+        ok = d is not None and norm(d) == f'np.sign(np.diff({coord}))'
+        ctx.ob('C04-R5', hz, f'{ax}_change_signs = {norm(d) if d is not None else "?"}', ok,
+               'ordering direction from the coordinates themselves' if ok else
+               ('the ordering direction of intersection points is not the sign of the coordinate difference: a leg '
+                f'inside one {ax} band (index change 0) gets direction 0, its pieces zig-zag and its length '
+                'fractions sum to more than one'), line=(d.lineno if d is not None else hz.node.lineno))
+    forwarding = ['Gridder.grid_trajectory', 'Gridder._grid_trajectory_without_dateline_crossing',
+                  'Gridder._grid_trajectory_with_dateline_crossing']
+    tracked = ('integrated_variables', 'lats', 'lons')
+    for qn in forwarding:
+        fi = m.func(qn)
+        for nm in tracked:
+            if nm not in fi.params:
+                continue
+            rebinds = [st for t, st, how in stores_to(fi.node) for x in ast.walk(t) if isinstance(x, ast.Name) and x.id == nm]
+            filt = [x for x in walk_no_nested(fi.node) if isinstance(x, ast.Subscript) and norm(x.value) == nm
+                    and nm == 'integrated_variables']
+            ok = not rebinds
+            ctx.ob('C04-R6', fi, f'`{nm}` reaches the gridding unmodified', ok,
+                   'passed through as received' if ok else
+                   (f'`{nm}` is rebound at line {rebinds[0].lineno} (`{norm(rebinds[0])[:70]}`) before the shares are '
+                    'computed: points / per-segment quantities that are filtered out here are missing from the '
+                    'gridded total'), line=(rebinds[0].lineno if rebinds else fi.node.lineno))
+        for c in calls_in(fi.node):
+            callee = resolve_call(ctx.prog, fi, c)
+            if callee is not None and 'integrated_variables' in callee.params:
+                i = callee.params.index('integrated_variables') - 1
+                a = c.args[i] if 0 <= i < len(c.args) else None
+                ok = a is not None and norm(a) == 'integrated_variables'
+                ctx.ob('C04-R6', fi, f'{callee.name}(…, integrated_variables={norm(a) if a is not None else "?"})', ok,
+                       'the caller\'s integrated variables, whole' if ok else
+                       'a filtered / different value is passed as the integrated variables', line=c.lineno)
+
+
 def run(ctx):
     m = ctx.prog.module(GRID)
+    rule_passthrough(ctx, m)
     rule_split_sum(ctx, m)
     rule_share(ctx, m)
     # only names that bear on the integrated quantities: the values themselves, the split lengths and the geometry
